@@ -23,6 +23,9 @@ fn optimize_repeatedly(prev_count: &mut usize, mut program: Program<Name>) -> Pr
 }
 
 pub fn aiken_optimize_and_intern(program: Program<Name>) -> Program<Name> {
+    #[cfg(feature = "verif-hooks")]
+    let _verif_guard = crate::verif::opt_enter(&program);
+
     let mut node_count = 0;
 
     let program = optimize_repeatedly(&mut node_count, program.run_once_pass())
